@@ -72,6 +72,21 @@ def frameOps (fx : Bool) (ws : List String) : Option String :=
         | .err _ => "err"
         | .crash s _ => "crash:" ++ s.label)
     | _, _, _ => some "bad-op"
+  | ["newrow", proto, flags, h] =>
+    match proto.toNat?, flags.toNat?, bytes h with
+    | some proto, some flags, some body =>
+      if FrameCrash.bit flags 0 then some "err" else
+      some (match FrameCrash.parseFrame fx (proto % 128) true flags 8 body with
+        | .ok (.rows m _) _ =>
+          (match RowsCrash.rowDataFx fx m.cols 0 with
+           | .ok k => "ok:newrow:" ++ toString k
+           | .err => "err:newrow"
+           | .crashMapOf => "crash:goType:reflect"
+           | .crashAssert => "crash:goType:assert")
+        | .ok fr _ => "ok:" ++ fr.kind
+        | .err _ => "err"
+        | .crash s _ => "crash:" ++ s.label)
+    | _, _, _ => some "bad-op"
   | ["hdr", h] =>
     match bytes h with
     | some wire =>
